@@ -91,7 +91,8 @@ def run(ctx):
         if ctx.quick() and h in SLOW:
             continue
         r = results.get(h)
-        if kind == 'nonce' and ctx.extra.get('kani_nonce_group_timed_out') and (r is None or r['verdict'] is None):
+        # (a harness that was being solved when the group's time limit struck is reported by Kani as FAILED without naming any failed check)
+        if kind == 'nonce' and ctx.extra.get('kani_nonce_group_timed_out') and (r is None or r['verdict'] is None or (r['verdict'] == 'FAILED' and not r['failed'])):
             # not a verdict: CBMC did not finish on this tree's shape of nonce(). The concrete allocator scan below runs the same function on the
             # real crates with a marker seed (30 derivations per seeded prove / recovering verify) and decides the enumerated cases.
             ctx.m_note('Kani harness %s' % h, 'CBMC did not finish within the time limit on this tree (the key buffer of nonce() is written in a shape it does not terminate on); '
